@@ -86,23 +86,7 @@ Definition top_call (e : env) (w : world) (precompiles : list N) (to value : N) 
 Definition top_create (e : env) (w : world) (precompiles : list N) (value : N) (init : list N) (gas : N)
   : tx_result :=
   let w0 := prepare e w None precompiles in
-  let addr := create_address (e_origin e) (get_nonce w0 (e_origin e)) in
+  let addr := create_address (fk_keccak (e_fork e)) (e_origin e) (get_nonce w0 (e_origin e)) in
   let r := evm_create (run (pred max_depth_fuel)) e (e_origin e) false 0 w0 init gas value addr in
   mk_tx_result (status_of (xr_err r)) (xr_ret r) (xr_gas r) addr (xr_w r).
 
-(* the Cancun precompile set 0x01..0x0a with only the identity contract (0x04)
-   modelled: the others consume all gas and fail, and are never called by the
-   generated programs *)
-Definition cancun_precompiles : list N := [1; 2; 3; 4; 5; 6; 7; 8; 9; 10].
-Definition spec_precompile (a : N) (input : list N) : N * option (list N) :=
-  if a =? 4 then (identity_gas (lenN input), Some input) else (0, None).
-Definition cancun : fork :=
-  mk_fork false (fun a => (1 <=? a) && (a <=? 10)) spec_precompile.
-(* Prague: BLS12-381 precompiles 0x0b..0x11 (EIP-7702 delegations not modelled) *)
-Definition prague_precompiles : list N := cancun_precompiles ++ [11; 12; 13; 14; 15; 16; 17].
-Definition prague : fork :=
-  mk_fork false (fun a => (1 <=? a) && (a <=? 17)) spec_precompile.
-(* Osaka: + CLZ (EIP-7939), + P256VERIFY at 0x100 *)
-Definition osaka_precompiles : list N := prague_precompiles ++ [256].
-Definition osaka : fork :=
-  mk_fork true (fun a => ((1 <=? a) && (a <=? 17)) || (a =? 256)) spec_precompile.
